@@ -1930,4 +1930,512 @@ def Secs.val : Secs → Rat
 theorem approxCoarse_36000 :
     (approxCoarse ⟨((36000 : Nat) : Rat), false, 0⟩).a.v = 36000 := by decide +kernel
 
+/-! ### a well-formed beginning followed by something that cannot go on -/
+
+theorem blocked_opt' (isU : Char → Bool) (lo up : Char) (L : Letters lo up)
+    (hlo : isU lo = false) (hup : isU up = false) (p : Option Piece) (wf : OptWF p)
+    (tail : List Char) (ht : p.isSome = true ∨ Blocked isU tail) : Blocked isU (optText lo up p ++ tail) := by
+  cases p with
+  | none =>
+    rcases ht with h | h
+    · cases h
+    · simpa [optText] using h
+  | some q => exact blocked_piece isU lo up L hlo hup q (wf q rfl).1 (wf q rfl).2 tail
+
+theorem stage' (isU : Char → Bool) (lo up : Char) (L : Letters lo up)
+    (hlo : isU lo = true) (hup : isU up = true) (p : Option Piece) (wf : OptWF p)
+    (tail : List Char) (ht : p = none → Blocked isU tail) :
+    ∃ r, optGroup true isU (skipWs (optText lo up p ++ tail)) = (p.map (·.num.num), r) ∧
+      skipWs r = skipWs tail := by
+  cases p with
+  | none => exact ⟨skipWs tail, by simpa [optText, Blocked] using ht rfl, skipWs_idem _⟩
+  | some q =>
+    refine ⟨tail, ?_, rfl⟩
+    simp only [optText, Option.map]
+    rw [optGroup_piece isU lo up L q (wf q rfl).1 (wf q rfl).2 tail]
+    cases q.upper <;> simp [hlo, hup]
+
+theorem optGroupLast_piece (isU : Char → Bool) (lo up : Char) (L : Letters lo up)
+    (hlo : isU lo = true) (hup : isU up = true) (q : Piece) (wf : q.WF) (hb : q.bare = false)
+    (tail : List Char) :
+    optGroupLast isU (skipWs (q.text lo up ++ tail)) = (some q.num.num, tail) := by
+  obtain ⟨hpre, hmid, hnum⟩ := wf
+  have e : q.text lo up ++ tail =
+      q.pre ++ (q.num.text ++ (q.mid ++ ((if q.upper then up else lo) :: tail))) := by
+    simp [Piece.text, Piece.letter, hb]
+  have hl : isWs (if q.upper then up else lo) = false := by
+    cases q.upper <;> simp [L.lo_ws, L.up_ws]
+  have hle : numEnd (if q.upper then up else lo) = true := by
+    cases q.upper <;> simp [L.lo_end, L.up_end]
+  have hu : isU (if q.upper then up else lo) = true := by
+    cases q.upper <;> simp [hlo, hup]
+  rw [e, skipWs_append_ws _ _ hpre, NumText.text_skipWs _ hnum]
+  rw [optGroupLast_text isU _ hnum _ (headSat_mid _ _ hmid (by simpa [headSat] using hle))]
+  simp [skipWs_append_ws _ _ hmid, skipWs_cons_of_not_ws _ hl, hu]
+
+/-- a beginning of a traditional duration string: pieces with their unit letters -/
+structure TradP where
+  d : Option Piece := none
+  h : Option Piece := none
+  m : Option Piece := none
+  s : Option Piece := none
+
+namespace TradP
+
+def text (r : TradP) (tail : List Char) : List Char :=
+  optText 'd' 'D' r.d ++ (optText 'h' 'H' r.h ++ (optText 'm' 'M' r.m ++ (optText 's' 'S' r.s ++ tail)))
+
+def WF (r : TradP) : Prop := OptWF r.d ∧ OptWF r.h ∧ OptWF r.m ∧ OptWF r.s
+
+end TradP
+
+/-- If after the pieces that are there, no group that is still allowed can start at `tail`
+    (for every unit: a piece of that or a later unit is there, or `tail` does not start with a group
+    of that unit) and `tail` is not blank, the traditional expression does not match. -/
+theorem matchTrad_bad_tail (r : TradP) (wf : r.WF) (tail : List Char)
+    (hd : r.d.isSome = true ∨ r.h.isSome = true ∨ r.m.isSome = true ∨ r.s.isSome = true ∨ Blocked isD tail)
+    (hh : r.h.isSome = true ∨ r.m.isSome = true ∨ r.s.isSome = true ∨ Blocked isH tail)
+    (hm : r.m.isSome = true ∨ r.s.isSome = true ∨ Blocked isM tail)
+    (ht : skipWs tail ≠ [])
+    (hs : r.s.isSome = true ∨ ∃ g r', optGroupLast isS (skipWs tail) = (g, r') ∧ skipWs r' ≠ []) :
+    matchTrad (r.text tail) = none := by
+  obtain ⟨wd, wh, wm, wsec⟩ := wf
+  have bS : ∀ isU, isU 's' = false → isU 'S' = false → (r.s.isSome = true ∨ Blocked isU tail) →
+      Blocked isU (optText 's' 'S' r.s ++ tail) :=
+    fun isU a b c => blocked_opt' isU 's' 'S' lettersS a b r.s wsec tail c
+  have bM : ∀ isU, isU 'm' = false → isU 'M' = false → isU 's' = false → isU 'S' = false →
+      (r.m.isSome = true ∨ r.s.isSome = true ∨ Blocked isU tail) →
+      Blocked isU (optText 'm' 'M' r.m ++ (optText 's' 'S' r.s ++ tail)) := by
+    intro isU a b c d e
+    apply blocked_opt' isU 'm' 'M' lettersM a b r.m wm
+    rcases e with e | e
+    · exact Or.inl e
+    · exact Or.inr (bS isU c d e)
+  have bH : Blocked isD (optText 'h' 'H' r.h ++ (optText 'm' 'M' r.m ++ (optText 's' 'S' r.s ++ tail))) ∨
+      r.d.isSome = true := by
+    rcases hd with h | h
+    · exact Or.inr h
+    · left
+      apply blocked_opt' isD 'h' 'H' lettersH (by decide) (by decide) r.h wh
+      rcases h with h | h
+      · exact Or.inl h
+      · exact Or.inr (bM isD (by decide) (by decide) (by decide) (by decide) h)
+  obtain ⟨r0, e0, s0⟩ := stage' isD 'd' 'D' lettersD (by decide) (by decide) r.d wd _ (by
+    intro hn
+    rcases bH with h | h
+    · exact h
+    · rw [hn] at h; cases h)
+  obtain ⟨r1, e1, s1⟩ := stage' isH 'h' 'H' lettersH (by decide) (by decide) r.h wh _ (by
+    intro hn
+    rcases hh with h | h
+    · rw [hn] at h; cases h
+    · exact bM isH (by decide) (by decide) (by decide) (by decide) h)
+  obtain ⟨r2, e2, s2⟩ := stage' isM 'm' 'M' lettersM (by decide) (by decide) r.m wm _ (by
+    intro hn
+    rcases hm with h | h
+    · rw [hn] at h; cases h
+    · exact bS isM (by decide) (by decide) h)
+  unfold matchTrad TradP.text
+  simp only [e0, s0, e1, s1, e2, s2]
+  cases hsec : r.s with
+  | some q =>
+    have := optGroupLast_piece isS 's' 'S' lettersS (by decide) (by decide) q (wsec q hsec).1
+      (wsec q hsec).2 tail
+    simp only [optText, this]
+    cases hq : skipWs tail with
+    | nil => exact absurd hq ht
+    | cons c cs => simp
+  | none =>
+    rcases hs with h | ⟨g, r', h1, h2⟩
+    · rw [hsec] at h; cases h
+    · simp only [optText, List.nil_append, h1]
+      cases hq : skipWs r' with
+      | nil => exact absurd hq h2
+      | cons c cs => simp
+
+/-! ### units of the traditional format, misplaced pieces, a second decimal mark -/
+
+inductive TUnit where
+  | d | h | m | s
+  deriving DecidableEq, Repr
+
+namespace TUnit
+def lo : TUnit → Char | .d => 'd' | .h => 'h' | .m => 'm' | .s => 's'
+def up : TUnit → Char | .d => 'D' | .h => 'H' | .m => 'M' | .s => 'S'
+theorem letters (u : TUnit) : Letters u.lo u.up := by
+  cases u <;> exact ⟨by decide, by decide, by decide, by decide⟩
+end TUnit
+
+/-- a piece of unit `v` or of a smaller unit is there -/
+def TradP.hasFrom (r : TradP) : TUnit → Bool
+  | .d => r.d.isSome || r.h.isSome || r.m.isSome || r.s.isSome
+  | .h => r.h.isSome || r.m.isSome || r.s.isSome
+  | .m => r.m.isSome || r.s.isSome
+  | .s => r.s.isSome
+
+theorem skipWs_piece_ne_nil (q : Piece) (wf : q.WF) (lo up : Char) (rest : List Char) :
+    skipWs (q.text lo up ++ rest) ≠ [] := by
+  obtain ⟨hpre, _, hnum⟩ := wf
+  have e : q.text lo up ++ rest = q.pre ++ (q.num.text ++ ((q.mid ++ q.letter lo up) ++ rest)) := by
+    simp [Piece.text]
+  rw [e, skipWs_append_ws _ _ hpre, NumText.text_skipWs _ hnum]
+  intro h
+  have := text_ne_nil q.num hnum ((q.mid ++ q.letter lo up) ++ rest)
+  rw [h] at this
+  cases this
+
+theorem matchIso_piece (q : Piece) (wf : q.WF) (lo up : Char) (rest : List Char) :
+    matchIso (q.text lo up ++ rest) = none := by
+  obtain ⟨hpre, _, hnum⟩ := wf
+  have e : q.text lo up ++ rest = q.pre ++ (q.num.text ++ ((q.mid ++ q.letter lo up) ++ rest)) := by
+    simp [Piece.text]
+  have h1 := matchIso_digit q.num hnum ((q.mid ++ q.letter lo up) ++ rest)
+  unfold matchIso at h1 ⊢
+  rw [e, skipWs_append_ws _ _ hpre]
+  exact h1
+
+/-- the ISO expression does not match a string that begins like a traditional one -/
+theorem matchIso_tradP (r : TradP) (wf : r.WF) (tail : List Char) (ht : matchIso tail = none) :
+    matchIso (r.text tail) = none := by
+  obtain ⟨wd, wh, wm, wsec⟩ := wf
+  unfold TradP.text
+  cases hd : r.d with
+  | some q => exact matchIso_piece q (wd q hd).1 _ _ _
+  | none =>
+    cases hh : r.h with
+    | some q => exact matchIso_piece q (wh q hh).1 _ _ _
+    | none =>
+      cases hm : r.m with
+      | some q => exact matchIso_piece q (wm q hm).1 _ _ _
+      | none =>
+        cases hs : r.s with
+        | some q => exact matchIso_piece q (wsec q hs).1 _ _ _
+        | none => simpa [optText] using ht
+
+theorem optGroupLast_piece_other (isU : Char → Bool) (lo up : Char) (L : Letters lo up)
+    (hlo : isU lo = false) (hup : isU up = false) (q : Piece) (wf : q.WF) (hb : q.bare = false)
+    (tail : List Char) :
+    optGroupLast isU (skipWs (q.text lo up ++ tail)) =
+      (some q.num.num, (if q.upper then up else lo) :: tail) := by
+  obtain ⟨hpre, hmid, hnum⟩ := wf
+  have e : q.text lo up ++ tail =
+      q.pre ++ (q.num.text ++ (q.mid ++ ((if q.upper then up else lo) :: tail))) := by
+    simp [Piece.text, Piece.letter, hb]
+  have hl : isWs (if q.upper then up else lo) = false := by
+    cases q.upper <;> simp [L.lo_ws, L.up_ws]
+  have hle : numEnd (if q.upper then up else lo) = true := by
+    cases q.upper <;> simp [L.lo_end, L.up_end]
+  have hu : isU (if q.upper then up else lo) = false := by
+    cases q.upper <;> simp [hlo, hup]
+  rw [e, skipWs_append_ws _ _ hpre, NumText.text_skipWs _ hnum]
+  rw [optGroupLast_text isU _ hnum _ (headSat_mid _ _ hmid (by simpa [headSat] using hle))]
+  simp [skipWs_append_ws _ _ hmid, skipWs_cons_of_not_ws _ hl, hu]
+
+/-- **a repeated or misordered unit** (any case, any whitespace, after any well-formed beginning,
+    whatever follows): a piece of unit `v` after a piece of `v` or of a smaller unit -/
+theorem matchTrad_misordered (r : TradP) (wf : r.WF) (v : TUnit) (hfrom : r.hasFrom v = true)
+    (pb : Piece) (wb : pb.WF) (hb : pb.bare = false) (rest : List Char) :
+    matchTrad (r.text (pb.text v.lo v.up ++ rest)) = none ∧
+      matchIso (r.text (pb.text v.lo v.up ++ rest)) = none := by
+  refine ⟨?_, matchIso_tradP r wf _ (matchIso_piece pb wb _ _ _)⟩
+  have bl : ∀ isU, isU v.lo = false → isU v.up = false → Blocked isU (pb.text v.lo v.up ++ rest) :=
+    fun isU a b => blocked_piece isU v.lo v.up v.letters a b pb wb hb rest
+  have hne := skipWs_piece_ne_nil pb wb v.lo v.up rest
+  have last : ∀ (a : isS v.lo = false) (b : isS v.up = false),
+      ∃ g r', optGroupLast isS (skipWs (pb.text v.lo v.up ++ rest)) = (g, r') ∧ skipWs r' ≠ [] := by
+    intro a b
+    refine ⟨_, _, optGroupLast_piece_other isS v.lo v.up v.letters a b pb wb hb rest, ?_⟩
+    have hl : isWs (if pb.upper then v.up else v.lo) = false := by
+      cases pb.upper <;> simp [v.letters.lo_ws, v.letters.up_ws]
+    rw [skipWs_cons_of_not_ws _ hl]
+    exact List.cons_ne_nil _ _
+  apply matchTrad_bad_tail r wf _ ?_ ?_ ?_ hne ?_
+  · cases v with
+    | d => simp only [TradP.hasFrom, Bool.or_eq_true] at hfrom; grind
+    | h => exact Or.inr (Or.inr (Or.inr (Or.inr (bl isD (by decide) (by decide)))))
+    | m => exact Or.inr (Or.inr (Or.inr (Or.inr (bl isD (by decide) (by decide)))))
+    | s => exact Or.inr (Or.inr (Or.inr (Or.inr (bl isD (by decide) (by decide)))))
+  · cases v with
+    | h => simp only [TradP.hasFrom, Bool.or_eq_true] at hfrom; grind
+    | d => exact Or.inr (Or.inr (Or.inr (bl isH (by decide) (by decide))))
+    | m => exact Or.inr (Or.inr (Or.inr (bl isH (by decide) (by decide))))
+    | s => exact Or.inr (Or.inr (Or.inr (bl isH (by decide) (by decide))))
+  · cases v with
+    | m => simp only [TradP.hasFrom, Bool.or_eq_true] at hfrom; grind
+    | d => exact Or.inr (Or.inr (bl isM (by decide) (by decide)))
+    | h => exact Or.inr (Or.inr (bl isM (by decide) (by decide)))
+    | s => exact Or.inr (Or.inr (bl isM (by decide) (by decide)))
+  · cases v with
+    | s => exact Or.inl (by simpa [TradP.hasFrom] using hfrom)
+    | d => exact Or.inr (last (by decide) (by decide))
+    | h => exact Or.inr (last (by decide) (by decide))
+    | m => exact Or.inr (last (by decide) (by decide))
+
+/-- a number text with a fraction in front of anything that is not a digit -/
+theorem parseNum_text_frac (t : NumText) (wf : t.WF) (hfr : t.fr.isSome = true) (rest : List Char)
+    (hr : headSat (fun c => !c.isDigit) rest) : parseNum (t.text ++ rest) = some (t.num, rest) := by
+  obtain ⟨ip, fr⟩ := t
+  obtain ⟨hne, hip, hfrw⟩ := wf
+  simp only at hne hip hfrw hfr
+  cases ip with
+  | nil => exact absurd rfl hne
+  | cons d ds =>
+  cases fr with
+  | none => cases hfr
+  | some mf =>
+    obtain ⟨c, fd⟩ := mf
+    obtain ⟨hmk, hfne, hfd⟩ := hfrw
+    have hmd : c.isDigit = false := by
+      simp only [isMark, Bool.or_eq_true, beq_iff_eq] at hmk
+      rcases hmk with h | h <;> subst h <;> decide
+    have htd : takeDigits ((d :: ds) ++ (c :: (fd ++ rest))) = (d :: ds, c :: (fd ++ rest)) :=
+      takeDigits_append _ hip _ (by simp [headSat, hmd])
+    have htf : takeDigits (fd ++ rest) = (fd, rest) := takeDigits_append _ hfd _ hr
+    unfold parseNum
+    simp only [NumText.text, fracText, List.append_assoc, List.cons_append, htd] at htd ⊢
+    simp only [hmk, ↓reduceIte, htf]
+    cases fd with
+    | nil => exact absurd rfl hfne
+    | cons e es => simp [NumText.num, NumText.val, NumText.hasFrac, fracVal]
+
+/-- **a second decimal mark** directly behind a number that already has a fraction (`1.5.5`,
+    `1,5,5s`, `2h 3.4.5m` …), after any well-formed beginning, whatever follows -/
+theorem matchTrad_second_mark (r : TradP) (wf : r.WF) (w : List Char) (hw : allWs w)
+    (t : NumText) (wt : t.WF) (hfr : t.fr.isSome = true) (c : Char) (hc : isMark c = true)
+    (rest : List Char) :
+    matchTrad (r.text (w ++ (t.text ++ c :: rest))) = none ∧
+      matchIso (r.text (w ++ (t.text ++ c :: rest))) = none := by
+  have hcd : c.isDigit = false := by
+    simp only [isMark, Bool.or_eq_true, beq_iff_eq] at hc
+    rcases hc with h | h <;> subst h <;> decide
+  have hcw : isWs c = false := by
+    simp only [isMark, Bool.or_eq_true, beq_iff_eq] at hc
+    rcases hc with h | h <;> subst h <;> decide
+  have hsk : skipWs (w ++ (t.text ++ c :: rest)) = t.text ++ c :: rest := by
+    rw [skipWs_append_ws _ _ hw, NumText.text_skipWs _ wt]
+  have hp := parseNum_text_frac t wt hfr (c :: rest) (by simp [headSat, hcd])
+  have hiso : matchIso (w ++ (t.text ++ c :: rest)) = none := by
+    have := matchIso_digit t wt (c :: rest)
+    unfold matchIso at this ⊢
+    rw [skipWs_append_ws _ _ hw]; exact this
+  refine ⟨?_, matchIso_tradP r wf _ hiso⟩
+  have bl : ∀ isU : Char → Bool, isU c = false → Blocked isU (w ++ (t.text ++ c :: rest)) := by
+    intro isU hu
+    unfold Blocked
+    rw [hsk]
+    unfold optGroup
+    rw [hp]
+    simp [skipWs_cons_of_not_ws _ hcw, hu]
+  have hU : ∀ isU ∈ [isD, isH, isM, isS], isU c = false := by
+    simp only [isMark, Bool.or_eq_true, beq_iff_eq] at hc
+    intro isU hm
+    simp only [List.mem_cons, List.not_mem_nil, or_false] at hm
+    rcases hc with h | h <;> subst h <;> rcases hm with rfl | rfl | rfl | rfl <;> decide
+  apply matchTrad_bad_tail r wf _
+    (Or.inr (Or.inr (Or.inr (Or.inr (bl isD (hU isD (by simp)))))))
+    (Or.inr (Or.inr (Or.inr (bl isH (hU isH (by simp))))))
+    (Or.inr (Or.inr (bl isM (hU isM (by simp)))))
+  · rw [hsk]
+    intro h
+    have := text_ne_nil t wt (c :: rest)
+    rw [h] at this; cases this
+  · right
+    refine ⟨some t.num, c :: rest, ?_, ?_⟩
+    · rw [hsk]
+      unfold optGroupLast
+      rw [hp]
+      simp [skipWs_cons_of_not_ws _ hcw, hU isS (by simp)]
+    · rw [skipWs_cons_of_not_ws _ hcw]; exact List.cons_ne_nil _ _
+
+/-! ### the same for the ISO format -/
+
+theorem iblocked_og' (U V : Char) (hV : numEnd V = true) (hne : (V == U) = false)
+    (x : Option NumText) (wf : OWF x) (tail : List Char) (hb : x.isSome = true ∨ IBlocked U tail) :
+    IBlocked U (og V x ++ tail) := by
+  cases x with
+  | none =>
+    rcases hb with h | h
+    · cases h
+    · simpa [og] using h
+  | some t =>
+    unfold IBlocked
+    have e : og V (some t) ++ tail = t.text ++ (V :: tail) := by simp [og]
+    rw [e, optGroup_text false _ t (wf t rfl) _ (by simpa [headSat] using hV)]
+    simp [hne]
+
+theorem isoStage' (U : Char) (hU : numEnd U = true) (x : Option NumText) (wf : OWF x)
+    (tail : List Char) (hb : x = none → IBlocked U tail) :
+    optGroup false (· == U) (og U x ++ tail) = (x.map (·.num), tail) := by
+  cases x with
+  | none => simpa [og, IBlocked] using hb rfl
+  | some t =>
+    have e : og U (some t) ++ tail = t.text ++ (U :: tail) := by simp [og]
+    rw [e, optGroup_text false _ t (wf t rfl) _ (by simpa [headSat] using hU)]
+    simp
+
+theorem isEmpty_false_of_ne_nil {l : List Char} (h : l ≠ []) : l.isEmpty = false := by
+  cases l with
+  | nil => exact absurd rfl h
+  | cons c cs => rfl
+
+/-- behind the `T`: if no group that is still allowed can start at `tail` and `tail` is not blank,
+    there is no match -/
+theorem isoTime_bad_tail (y mo d : Option Num) (h m s : Option NumText)
+    (wh : OWF h) (wm : OWF m) (wsec : OWF s) (tail : List Char)
+    (hh : h.isSome = true ∨ m.isSome = true ∨ s.isSome = true ∨ IBlocked 'H' tail)
+    (hm : m.isSome = true ∨ s.isSome = true ∨ IBlocked 'M' tail)
+    (hs : s.isSome = true ∨ IBlocked 'S' tail)
+    (ht : skipWs tail ≠ []) :
+    isoTime y mo d (og 'H' h ++ (og 'M' m ++ (og 'S' s ++ tail))) = none := by
+  have eH := isoStage' 'H' (by decide) h wh (og 'M' m ++ (og 'S' s ++ tail)) (by
+    intro hn
+    rcases hh with c | c
+    · rw [hn] at c; cases c
+    · apply iblocked_og' 'H' 'M' (by decide) (by decide) m wm
+      rcases c with c | c
+      · exact Or.inl c
+      · exact Or.inr (iblocked_og' 'H' 'S' (by decide) (by decide) s wsec _ c))
+  have eM := isoStage' 'M' (by decide) m wm (og 'S' s ++ tail) (by
+    intro hn
+    rcases hm with c | c
+    · rw [hn] at c; cases c
+    · exact iblocked_og' 'M' 'S' (by decide) (by decide) s wsec _ c)
+  have eS := isoStage' 'S' (by decide) s wsec tail (by
+    intro hn
+    rcases hs with c | c
+    · rw [hn] at c; cases c
+    · exact c)
+  unfold isoTime
+  simp only [eH, eM, eS, isEmpty_false_of_ne_nil ht, Bool.false_eq_true, ↓reduceIte]
+
+/-- a beginning of an ISO duration string -/
+structure IsoP where
+  pre : List Char := []
+  y : Option NumText := none
+  mo : Option NumText := none
+  d : Option NumText := none
+  t : Bool := false
+  h : Option NumText := none
+  m : Option NumText := none
+  s : Option NumText := none
+
+namespace IsoP
+
+def text (r : IsoP) (tail : List Char) : List Char :=
+  r.pre ++ 'P' :: (og 'Y' r.y ++ (og 'M' r.mo ++ (og 'D' r.d ++
+    (if r.t then 'T' :: (og 'H' r.h ++ (og 'M' r.m ++ (og 'S' r.s ++ tail))) else tail))))
+
+def WF (r : IsoP) : Prop :=
+  allWs r.pre ∧ OWF r.y ∧ OWF r.mo ∧ OWF r.d ∧ OWF r.h ∧ OWF r.m ∧ OWF r.s
+
+/-- designator `V` may not follow any more: in the part of the string where the beginning ends
+    (date part, or time part behind the `T`), `V` or a later designator has been used already -/
+def Closed (r : IsoP) (V : Char) : Prop :=
+  if r.t then
+    (V = 'H' → (r.h.isSome || r.m.isSome || r.s.isSome) = true) ∧
+    (V = 'M' → (r.m.isSome || r.s.isSome) = true) ∧ (V = 'S' → r.s.isSome = true)
+  else
+    (V = 'Y' → (r.y.isSome || r.mo.isSome || r.d.isSome) = true) ∧
+    (V = 'M' → (r.mo.isSome || r.d.isSome) = true) ∧ (V = 'D' → r.d.isSome = true)
+
+end IsoP
+
+/-- If, where the beginning `r` ends, no group that is still allowed can start at `tail`, `tail` is
+    not blank and does not start with `T`, the ISO expression does not match. `blk U` says that the
+    group of designator `U` is excluded (a piece of `U` or later is there, or `tail` is no such group). -/
+theorem matchIso_bad_tail (r : IsoP) (wf : r.WF) (tail : List Char)
+    (hdig : headSat (fun c => c.isDigit) tail) (htne : tail ≠ [])
+    (hdate : r.t = false →
+      (r.y.isSome = true ∨ r.mo.isSome = true ∨ r.d.isSome = true ∨ IBlocked 'Y' tail) ∧
+      (r.mo.isSome = true ∨ r.d.isSome = true ∨ IBlocked 'M' tail) ∧
+      (r.d.isSome = true ∨ IBlocked 'D' tail))
+    (htime : r.t = true →
+      (r.h.isSome = true ∨ r.m.isSome = true ∨ r.s.isSome = true ∨ IBlocked 'H' tail) ∧
+      (r.m.isSome = true ∨ r.s.isSome = true ∨ IBlocked 'M' tail) ∧
+      (r.s.isSome = true ∨ IBlocked 'S' tail)) :
+    matchIso (r.text tail) = none := by
+  obtain ⟨wpre, wy, wmo, wd, wh, wm, wsec⟩ := wf
+  -- `tail` starts with a digit
+  obtain ⟨c0, t0, rfl⟩ : ∃ c t, tail = c :: t := by
+    cases tail with
+    | nil => exact absurd rfl htne
+    | cons c t => exact ⟨c, t, rfl⟩
+  have hc0 : c0.isDigit = true := by simpa [headSat] using hdig
+  have hsk : skipWs (c0 :: t0) ≠ [] := by
+    rw [skipWs_cons_of_not_ws _ (digit_not_ws hc0)]; exact List.cons_ne_nil _ _
+  have hT : (c0 == 'T') = false := by
+    cases h : (c0 == 'T') with
+    | false => rfl
+    | true =>
+      have : c0 = 'T' := by simpa using h
+      subst this; exact absurd hc0 (by decide)
+  unfold matchIso IsoP.text
+  rw [skipWs_append_ws _ _ wpre, skipWs_cons_of_not_ws _ (by decide)]
+  simp only [beq_self_eq_true, ↓reduceIte]
+  unfold isoAfterP
+  cases ht : r.t with
+  | true =>
+    obtain ⟨c1, c2, c3⟩ := htime ht
+    have bT : ∀ U R, IBlocked U ('T' :: R) := fun U R => iblocked_head U _ (by simp [headSat])
+    have eY := isoStage' 'Y' (by decide) r.y wy
+      (og 'M' r.mo ++ (og 'D' r.d ++ 'T' :: (og 'H' r.h ++ (og 'M' r.m ++ (og 'S' r.s ++ c0 :: t0)))))
+      (fun _ => iblocked_og 'Y' 'M' (by decide) (by decide) r.mo wmo _
+        (iblocked_og 'Y' 'D' (by decide) (by decide) r.d wd _ (bT _ _)))
+    have eMo := isoStage' 'M' (by decide) r.mo wmo
+      (og 'D' r.d ++ 'T' :: (og 'H' r.h ++ (og 'M' r.m ++ (og 'S' r.s ++ c0 :: t0))))
+      (fun _ => iblocked_og 'M' 'D' (by decide) (by decide) r.d wd _ (bT _ _))
+    have eD := isoStage' 'D' (by decide) r.d wd
+      ('T' :: (og 'H' r.h ++ (og 'M' r.m ++ (og 'S' r.s ++ c0 :: t0)))) (fun _ => bT _ _)
+    simp only [↓reduceIte, eY, eMo, eD, beq_self_eq_true]
+    exact isoTime_bad_tail _ _ _ r.h r.m r.s wh wm wsec _ c1 c2 c3 hsk
+  | false =>
+    obtain ⟨c1, c2, c3⟩ := hdate ht
+    have eY := isoStage' 'Y' (by decide) r.y wy (og 'M' r.mo ++ (og 'D' r.d ++ c0 :: t0)) (by
+      intro hn
+      rcases c1 with c | c
+      · rw [hn] at c; cases c
+      · apply iblocked_og' 'Y' 'M' (by decide) (by decide) r.mo wmo
+        rcases c with c | c
+        · exact Or.inl c
+        · exact Or.inr (iblocked_og' 'Y' 'D' (by decide) (by decide) r.d wd _ c))
+    have eMo := isoStage' 'M' (by decide) r.mo wmo (og 'D' r.d ++ c0 :: t0) (by
+      intro hn
+      rcases c2 with c | c
+      · rw [hn] at c; cases c
+      · exact iblocked_og' 'M' 'D' (by decide) (by decide) r.d wd _ c)
+    have eD := isoStage' 'D' (by decide) r.d wd (c0 :: t0) (by
+      intro hn
+      rcases c3 with c | c
+      · rw [hn] at c; cases c
+      · exact c)
+    simp only [Bool.false_eq_true, ↓reduceIte, eY, eMo, eD, hT, isEmpty_false_of_ne_nil hsk]
+
+theorem convert_syntax (cs : List Char) (h1 : matchTrad cs = none) (h2 : matchIso cs = none) :
+    convert cs = .error .syntax := by
+  unfold convert
+  rw [h1, h2]
+
+theorem headSat_digit_text (t : NumText) (wf : t.WF) (rest : List Char) :
+    headSat (fun c => c.isDigit) (t.text ++ rest) ∧ t.text ++ rest ≠ [] := by
+  obtain ⟨ip, fr⟩ := t
+  obtain ⟨hne, hip, _⟩ := wf
+  cases ip with
+  | nil => exact absurd rfl hne
+  | cons d ds => exact ⟨by simpa [NumText.text, headSat] using hip d (by simp), by simp [NumText.text]⟩
+
+theorem iblocked_text (U V : Char) (hV : numEnd V = true) (hne : (V == U) = false)
+    (b : NumText) (wb : b.WF) (rest : List Char) : IBlocked U (b.text ++ V :: rest) := by
+  have := iblocked_og' U V hV hne (some b) (by intro t ht; cases ht; exact wb) rest (Or.inl rfl)
+  simpa [og] using this
+
+theorem iblocked_second_mark (U : Char) (t : NumText) (wt : t.WF) (hfr : t.fr.isSome = true)
+    (c : Char) (hc : isMark c = true) (hU : (c == U) = false) (rest : List Char) :
+    IBlocked U (t.text ++ c :: rest) := by
+  have hcd : c.isDigit = false := by
+    simp only [isMark, Bool.or_eq_true, beq_iff_eq] at hc
+    rcases hc with h | h <;> subst h <;> decide
+  unfold IBlocked optGroup
+  rw [parseNum_text_frac t wt hfr (c :: rest) (by simp [headSat, hcd])]
+  simp [hU]
+
 end Edzed.TimeUnits
